@@ -142,6 +142,25 @@ broken translator obligation):
                A raising construct anywhere else, or in a function not declared `exc:`, is unsupported.
   nested def : `def f(x, ...): return e` inside a function (no defaults / decorators, `e` must not read variables
                that the enclosing function assigns): calls `f(a)` are expanded in place (`let x := a; e`).
+  structured : (fifth round) parameter / variable / result types `key` (an opaque hashable object: `Nat`), `int`,
+               `tup2`, `slice`, `bool`, `opt[T]`, `list[T]`, `dict[K,V]` (the association list of the items in
+               insertion order, keys unique), `union[Cls(field:T,...)|...]` (instances of the listed record classes;
+               anything else is the constructor `other`; the inductive type `<f>_<param>_elem` is emitted in front of the
+               function).  "var:<name>=dict[K,V]" declares a local dict: it must be created exactly once, by `{}`,
+               a dict comprehension `{k: e for k in D}`, `defaultdict(list)`, `defaultdict(lambda: <int>)` or
+               `defaultdict(lambda: defaultdict(list))` (that statement fixes what a missing key gives: KeyError or
+               the factory's value).  `d[k]` (KeyError / default; READING a defaultdict also inserts the default - the
+               translation keeps the value only, which `check_dict_uses` allows when the insertion cannot be
+               observed), `d.get(k, x)`, `d[k] = v` (`pyDictSet`: in place, or appended), `d[k1]..[kn].append(v)` on
+               defaultdicts (`pyDictMod`), `iteritems(d)` / `d.items()` as a `for` iterable (also of a raising
+               expression such as `vr[vertex]`), `isinstance(v, Cls)` on a union-typed loop variable as an `if` test
+               (a `match`; the fields `v.f` are variables `v_f` in the branch, optional fields are tested with
+               `is None`), `slice(a, b)` values, `x.start` / `x.stop`; on an optional slice that is not known to be a
+               slice `x.stop` is a raising expression (AttributeError) and `d[k] = x` stores the optional as it is;
+               after `x = slice(a, b)` the value is known until the next loop / merge.  "env:<attr>=T;getitem=K->V"
+               declares an object of the environment (`machine`): its declared attributes are parameters, `obj[k]` is a
+               call of the function parameter `<obj>_getitem : K -> Except String V` (what the object answers,
+               value or exception, is an input of the generated definition).
 Semantics: Python ints are unbounded -> Lean `Int`; `//` = `Int.fdiv`,
 `%` = `Int.fmod` (Python's floor semantics; a ZERO divisor - Python: ZeroDivisionError - is NOT modelled: the companion
 theorems state `≠ 0` hypotheses wherever a divisor is not a non-zero literal), bit operations = Mathlib's
@@ -261,6 +280,17 @@ FUNCS = [
     ("rig/type_casts.py", "fp_to_float", ["int", "->kbits", "int"], "exc:float"),
     ("rig/machine_control/regions.py", "RegionCoreTree.__init__",
      ["obj:base_x,base_y,scale,shift,level;skip:locally_selected,subregions", "int", "int", "int"], "none"),
+    # ---- fifth round: structured types (dicts of dicts, defaultdicts, typed records, environment objects) -------
+    ("rig/place_and_route/allocate/greedy.py", "allocate",
+     ["dict[key,dict[key,int]]", "ignored", "env:chip_resources=dict[key,int];getitem=tup2->dict[key,int]",
+      "list[union[ReserveResourceConstraint(resource:key,reservation:slice,location:opt[tup2])"
+      "|AlignResourceConstraint(resource:key,alignment:int)]]",
+      "dict[key,tup2]",
+      "var:globally_reserved=dict[key,list[slice]]", "var:locally_reserved=dict[tup2,dict[key,list[slice]]]",
+      "var:alignments=dict[key,int]", "var:chip_contents=dict[tup2,list[key]]",
+      "var:resource_pointers=dict[key,int]", "var:vertex_allocation=dict[key,opt[slice]]",
+      "var:allocation=dict[key,dict[key,opt[slice]]]", "var:proposed_allocation=optslice"],
+     "exc:dict[key,dict[key,opt[slice]]]"),
 ]
 
 # module-level tables of the source, already regenerated into Lean by other translator modules
@@ -409,6 +439,30 @@ def pyDictUpd : List (Int × Int) → Int → (Int → Int) → Except String (L
   | (k', v) :: t, k, f =>
     if k' = k then Except.ok ((k', f v) :: t) else (pyDictUpd t k f).map (fun r => (k', v) :: r)
 
+/-- `d[k]` on a dict given as the association list of its items (insertion order, unique keys): `KeyError` when absent -/
+def pyDictGet {κ α : Type} [BEq κ] (d : List (κ × α)) (k : κ) : Except String α :=
+  match d.lookup k with
+  | some v => Except.ok v
+  | none => Except.error "KeyError"
+
+/-- `d.get(k, dflt)` / the VALUE of `d[k]` on a `defaultdict` whose factory gives `dflt` -/
+def pyDictGetD {κ α : Type} [BEq κ] (d : List (κ × α)) (k : κ) (dflt : α) : α := (d.lookup k).getD dflt
+
+/-- `d[k] = v`: the value of an existing key is replaced in place (the key object stays), a new key goes to the end -/
+def pyDictSet {κ α : Type} [BEq κ] : List (κ × α) → κ → α → List (κ × α)
+  | [], k, v => [(k, v)]
+  | (k', v') :: t, k, v => if k' == k then (k', v) :: t else (k', v') :: pyDictSet t k v
+
+/-- `d[k] = f(d[k])` on a `defaultdict` whose factory gives `dflt` (`d[k].append(x)`: `f = (· ++ [x])`) -/
+def pyDictMod {κ α : Type} [BEq κ] (d : List (κ × α)) (k : κ) (dflt : α) (f : α → α) : List (κ × α) :=
+  pyDictSet d k (f (pyDictGetD d k dflt))
+
+/-- an attribute of a value that may be `None`: `AttributeError` when it is -/
+def pyOptGet {α : Type} (o : Option α) : Except String α :=
+  match o with
+  | some v => Except.ok v
+  | none => Except.error "AttributeError"
+
 /-- the operations on Python floats used by translated code.  Generated definitions that compute with floats are
 parametric in their semantics `F`; the companion modules instantiate it with the IEEE-754 double model of
 Model/C16.lean (whose facts are that model's trusted base, not the translator's) -/
@@ -468,6 +522,8 @@ def lean_ty(t):
         return "Option " + paren(lean_ty(t[4:]))
     if t.startswith("raw:"):
         return t[4:]
+    if "[" in t:
+        return dlean(parse_ty(t))
     return BASE_TY[t]
 
 
@@ -528,6 +584,109 @@ def _balanced(s):
     return d == 0
 
 
+# ---- structured types (fifth round) -----------------------------------------------------------------------
+# key (an opaque hashable object: `Nat`), int, tup2, slice (`Int × Int`), bool, opt[T], list[T], dict[K,V] (association
+# list of the items in insertion order), union[Cls(field:T,...)|...] (instances of the listed classes, told apart by
+# `isinstance`; anything else is the constructor `other`): parsed into tuples
+def split_top(s, sep):
+    out, depth, cur = [], 0, ""
+    for ch in s:
+        if ch in "[(":
+            depth += 1
+        if ch in "])":
+            depth -= 1
+        if ch == sep and depth == 0:
+            out.append(cur)
+            cur = ""
+        else:
+            cur += ch
+    out.append(cur)
+    return [x.strip() for x in out]
+
+
+def parse_ty(s, uname=None):
+    s = s.strip()
+    if s in ("key", "int", "tup2", "slice", "bool"):
+        return (s,)
+    if s == "optslice":
+        return ("opt", ("slice",))
+    m = re.match(r"(\w+)\[(.*)\]$", s, re.S)
+    if not m:
+        raise NotImplementedError("type " + s)
+    head, inner = m.group(1), m.group(2)
+    if head == "opt":
+        return ("opt", parse_ty(inner, uname))
+    if head == "list":
+        return ("list", parse_ty(inner, uname))
+    if head == "dict":
+        kv = split_top(inner, ",")
+        if len(kv) != 2:
+            raise NotImplementedError("type " + s)
+        return ("dict", parse_ty(kv[0], uname), parse_ty(kv[1], uname))
+    if head == "union":
+        alts = []
+        for a in split_top(inner, "|"):
+            m2 = re.match(r"(\w+)\((.*)\)$", a, re.S)
+            if not m2:
+                raise NotImplementedError("union alternative " + a)
+            fields = tuple((f.split(":", 1)[0].strip(), parse_ty(f.split(":", 1)[1])) for f in split_top(m2.group(2), ",") if f)
+            alts.append((m2.group(1), fields))
+        return ("union", uname or "PyUnion", tuple(alts))
+    raise NotImplementedError("type " + s)
+
+
+def dlean(T):
+    """Lean type of a structured type"""
+    if T[0] == "key":
+        return "Nat"
+    if T[0] == "int":
+        return "Int"
+    if T[0] in ("tup2", "slice"):
+        return "Int × Int"
+    if T[0] == "bool":
+        return "Bool"
+    if T[0] == "opt":
+        return "Option " + paren(dlean(T[1]))
+    if T[0] == "list":
+        return "List " + paren(dlean(T[1]))
+    if T[0] == "dict":
+        return "List (%s)" % prod([dlean(T[1]), dlean(T[2])])
+    if T[0] == "union":
+        return T[1]
+    raise NotImplementedError("type %r" % (T,))
+
+
+def dict_creation(v):
+    """`{}` / `dict()` / `defaultdict(list)` / `defaultdict(lambda: <int literal>)` / `defaultdict(lambda: defaultdict(list))`
+    -> the defaults of missing keys per level ([None] for a plain dict), or None (not the creation of a dict)"""
+    if isinstance(v, ast.Dict) and not v.keys:
+        return [None]
+    if isinstance(v, ast.Call) and isinstance(v.func, ast.Name) and not v.keywords:
+        if v.func.id == "dict" and not v.args:
+            return [None]
+        if v.func.id == "defaultdict" and len(v.args) == 1:
+            f = v.args[0]
+            if isinstance(f, ast.Name) and f.id in ("list", "dict"):
+                return ["[]", None] if f.id == "dict" else ["[]"]
+            if isinstance(f, ast.Lambda) and not f.args.args:
+                b = f.body
+                if isinstance(b, ast.Constant) and isinstance(b.value, int) and not isinstance(b.value, bool):
+                    return ["(%d : Int)" % b.value if b.value >= 0 else "(-%d : Int)" % -b.value]
+                inner = dict_creation(b)
+                if inner is not None:
+                    return ["[]"] + inner
+    return None
+
+
+def union_decl(T):
+    """the inductive type of a union of record classes"""
+    text = "/-- instances of %s, told apart by `isinstance`; `other`: any other object -/\ninductive %s where\n" % (
+        " / ".join(a[0] for a in T[2]), T[1])
+    for cls, fields in T[2]:
+        text += "  | %s %s\n" % (cls, " ".join("(%s : %s)" % (ident(f), dlean(t)) for f, t in fields))
+    return text + "  | other\n  deriving DecidableEq, Repr\n"
+
+
 class Loop(object):
     """one enclosing loop: the components of its fold state"""
     def __init__(self, comps):
@@ -579,6 +738,14 @@ class Tr(object):
         self.tmp_ty = {}              # hoisted temporaries -> Lean type
         self.rec_elems = {}           # list-of-records parameter -> attribute names
         self.aux = []                 # definitions of loop bodies, emitted in front of the function
+        # ---- structured types (fifth round) ----
+        self.new = False              # the function uses structured types (new-style typing and narrowing)
+        self.dty = {}                 # Lean name -> structured type (parameters, declared variables, loop variables)
+        self.vartypes = {}            # declared local variables (Python name) -> structured type
+        self.chain = {}               # dict variables -> [default of a missing key (Lean expr) or None = KeyError, ...]
+        self.env = {}                 # environment objects: name -> {"attrs": {attr: T}, "getitem": (Tkey, Tval)}
+        self.ufields = {}             # variable known to be an instance of a union class -> (cls, {field: (lean, T)})
+        self.opt_inner = {}           # narrowed name -> Lean type of the narrowed value
 
     # ---- helpers -------------------------------------------------------------
     def callee(self, qual):
@@ -711,6 +878,11 @@ class Tr(object):
 
     def opt_expr(self, n):
         """an optional-int expression: (Lean expr : Option Int, key, narrowed name) or None"""
+        if self.new and isinstance(n, ast.Attribute) and isinstance(n.value, ast.Name) and ident(n.value.id) in self.ufields:
+            f = self.ufields[ident(n.value.id)][1].get(n.attr)
+            if f is not None and f[1][0] == "opt":
+                self.opt_inner[f[0] + "_v"] = dlean(f[1][1])
+                return f[0], ast.dump(n), f[0] + "_v"
         if isinstance(n, ast.Name) and self.types.get(n.id) == "optint":
             return ident(n.id), ast.dump(n), ident(n.id) + "_v"
         if isinstance(n, ast.Name) and n.id in self.optslices and self.lty.get(ident(n.id)) == "Option (Int × Int)":
@@ -728,9 +900,288 @@ class Tr(object):
             return nm, ast.dump(n), nm + "_v"
         return None
 
+
+    # ---- structured types: dicts of dicts, defaultdicts, typed records, environment objects ------------------
+    def is_narrow(self, name):
+        return ast.dump(ast.Name(id=name, ctx=ast.Load())) in self.narrow
+
+    def dtyof(self, n):
+        """structured type of an expression, or None when it has none / is not known"""
+        if not self.new:
+            return None
+        if isinstance(n, ast.Name):
+            T = self.dty.get(ident(n.id))
+            if T is None and n.id in self.vartypes:
+                T = self.vartypes[n.id]
+            if T is not None and T[0] == "opt" and self.is_narrow(n.id):
+                return T[1]
+            return T
+        if isinstance(n, ast.Constant) and isinstance(n.value, bool):
+            return ("bool",)
+        if isinstance(n, ast.Constant) and isinstance(n.value, int):
+            return ("int",)
+        if isinstance(n, ast.Attribute) and isinstance(n.value, ast.Name):
+            if n.value.id in self.env and n.value.id not in self.lty:
+                return self.env[n.value.id]["attrs"].get(n.attr)
+            if ident(n.value.id) in self.ufields:
+                f = self.ufields[ident(n.value.id)][1].get(n.attr)
+                if f is None:
+                    return None
+                if f[1][0] == "opt" and ast.dump(n) in self.narrow:
+                    return f[1][1]
+                return f[1]
+        if isinstance(n, ast.Attribute) and n.attr in ("start", "stop"):
+            T = self.dtyof(n.value)
+            if T in (("slice",), ("opt", ("slice",))):
+                return ("int",)
+        if isinstance(n, ast.Subscript) and not isinstance(n.slice, ast.Slice):
+            if isinstance(n.value, ast.Name) and n.value.id in self.env and n.value.id not in self.lty:
+                g = self.env[n.value.id].get("getitem")
+                return g[1] if g else None
+            T = self.dtyof(n.value)
+            if T is not None and T[0] == "dict":
+                return T[2]
+        if isinstance(n, ast.Call) and isinstance(n.func, ast.Attribute) and n.func.attr == "get" and len(n.args) == 2 \
+                and not n.keywords:
+            T = self.dtyof(n.func.value)
+            if T is not None and T[0] == "dict":
+                return T[2]
+        if isinstance(n, ast.Call) and isinstance(n.func, ast.Name) and n.func.id == "slice" and len(n.args) == 2 \
+                and "slice" not in self.lty:
+            return ("slice",)
+        if isinstance(n, ast.DictComp):
+            return None
+        return None
+
+    def chain_of(self, n):
+        """defaults of the (nested) dict denoted by `n`: [Lean default or None = KeyError or "?" = unknown, ...]"""
+        if isinstance(n, ast.Name):
+            return self.chain.get(n.id, [None] * 4)
+        if isinstance(n, ast.Subscript):
+            if isinstance(n.value, ast.Name) and n.value.id in self.env:
+                return [None] * 4
+            return self.chain_of(n.value)[1:] + [None]
+        if isinstance(n, ast.Attribute):
+            return [None] * 4
+        return ["?"] * 4            # e.g. the result of `.get(k, {})`: a defaultdict or the plain default
+
+    def empty_literal(self, n):
+        return (isinstance(n, ast.Dict) and not n.keys) or (isinstance(n, (ast.List, ast.Tuple)) and not n.elts)
+
+    def dict_read_raises(self, n):
+        """shape test: is the subscript `n` a read that may raise (KeyError / the environment's error)?"""
+        if not (self.new and isinstance(n, ast.Subscript) and not isinstance(n.slice, ast.Slice)
+                and isinstance(n.ctx, ast.Load)):
+            return False
+        if isinstance(n.value, ast.Name) and n.value.id in self.env:
+            return True
+        T = self.dtyof(n.value)
+        return T is not None and T[0] == "dict" and self.chain_of(n.value)[0] is None
+
+    def e_new(self, n):
+        """expressions of the structured subset -> Lean text, or None (not one of them)"""
+        if not self.new:
+            return None
+        if isinstance(n, ast.Name):
+            T = self.dty.get(ident(n.id))
+            if T is not None and T[0] == "opt" and ident(n.id) in self.lty:
+                if self.is_narrow(n.id):
+                    return self.narrow[ast.dump(ast.Name(id=n.id, ctx=ast.Load()))]
+                raise NotImplementedError("optional `%s` used as a value without an `is None` test" % n.id)
+            return None
+        if isinstance(n, ast.Attribute) and isinstance(n.value, ast.Name):
+            if n.value.id in self.env and n.value.id not in self.lty:
+                if n.attr not in self.env[n.value.id]["attrs"]:
+                    raise NotImplementedError("attribute %s.%s of the environment object is not declared" % (n.value.id, n.attr))
+                return "%s_%s" % (ident(n.value.id), n.attr)
+            if ident(n.value.id) in self.ufields:
+                f = self.ufields[ident(n.value.id)][1].get(n.attr)
+                if f is None:
+                    raise NotImplementedError("attribute %s.%s is not declared" % (n.value.id, n.attr))
+                if f[1][0] == "opt":
+                    if ast.dump(n) in self.narrow:
+                        return self.narrow[ast.dump(n)]
+                    raise NotImplementedError("optional attribute %s.%s used without an `is None` test" % (n.value.id, n.attr))
+                return f[0]
+        if isinstance(n, ast.Attribute) and n.attr in ("start", "stop"):
+            T = self.dtyof(n.value)
+            sel = ".1" if n.attr == "start" else ".2"
+            if T == ("slice",):
+                return self.e(n.value) + sel
+            if T == ("opt", ("slice",)) and isinstance(n.value, ast.Name):
+                # an attribute of a value that may be None: AttributeError when it is
+                t = self.raising("(pyOptGet %s)" % ident(n.value.id))
+                self.tmp_ty[t] = "Int × Int"
+                return t + sel
+        if isinstance(n, ast.Subscript) and not isinstance(n.slice, ast.Slice):
+            if isinstance(n.value, ast.Name) and n.value.id in self.env and n.value.id not in self.lty:
+                g = self.env[n.value.id].get("getitem")
+                if g is None:
+                    raise NotImplementedError("subscript of the environment object " + n.value.id)
+                t = self.raising("(%s_getitem %s)" % (ident(n.value.id), self.e(n.slice)))
+                self.tmp_ty[t] = dlean(g[1])
+                return t
+            T = self.dtyof(n.value)
+            if T is not None and T[0] == "dict":
+                d = self.e(n.value)
+                dflt = self.chain_of(n.value)[0]
+                k = self.e(n.slice)
+                if dflt == "?":
+                    raise NotImplementedError("subscript of a dict whose kind (dict / defaultdict) is not known")
+                if dflt is None:
+                    t = self.raising("(pyDictGet %s %s)" % (d, k))
+                    self.tmp_ty[t] = dlean(T[2])
+                    return t
+                return "(pyDictGetD %s %s %s)" % (d, k, dflt)
+        if isinstance(n, ast.Call) and isinstance(n.func, ast.Attribute) and n.func.attr == "get" and len(n.args) == 2 \
+                and not n.keywords:
+            T = self.dtyof(n.func.value)
+            if T is not None and T[0] == "dict":
+                dflt = "[]" if self.empty_literal(n.args[1]) else self.e(n.args[1])
+                inner = self.chain_of(n.func.value)[0]
+                if inner not in (None, "?") and inner != dflt:
+                    raise NotImplementedError(".get with a default other than the defaultdict's own")
+                return "(pyDictGetD %s %s %s)" % (self.e(n.func.value), self.e(n.args[0]), dflt)
+        if isinstance(n, ast.Call) and isinstance(n.func, ast.Name) and n.func.id == "slice" and len(n.args) == 2 \
+                and not n.keywords and "slice" not in self.lty:
+            return "(%s, %s)" % (self.e(n.args[0]), self.e(n.args[1]))
+        if isinstance(n, ast.DictComp) and len(n.generators) == 1 and not n.generators[0].ifs \
+                and isinstance(n.generators[0].target, ast.Name) and isinstance(n.key, ast.Name) \
+                and n.key.id == n.generators[0].target.id:
+            # {k: e for k in D}: one item per key of D, in D's order (keys stay unique)
+            T = self.dtyof(n.generators[0].iter)
+            if T is not None and T[0] == "dict":
+                var = ident(n.key.id)
+                saved = dict(self.lty)
+                self.lty[var] = dlean(T[1])
+                self.bind_dty(var, T[1])
+                body = self.e(n.value)
+                self.lty = saved
+                return "(%s.map (fun (kv_ : %s) => let %s : %s := kv_.1; (%s, %s)))" % (
+                    self.e(n.generators[0].iter), prod([dlean(T[1]), dlean(T[2])]), var, dlean(T[1]), var, body)
+        return None
+
+    def bind_dty(self, name, T):
+        """a Lean name gets a structured type (one type per name in a function)"""
+        if T is None:
+            return
+        if self.dty.get(name, T) != T:
+            raise NotImplementedError("variable %s used at two structured types" % name)
+        self.dty[name] = T
+
+    def dict_root(self, n):
+        """`d[k1]...[kn]` rooted at a dict-typed NAME -> (name, [k1, ..., kn]) or None"""
+        keys = []
+        while isinstance(n, ast.Subscript) and not isinstance(n.slice, ast.Slice):
+            keys.insert(0, n.slice)
+            n = n.value
+        if self.new and keys and isinstance(n, ast.Name) and (self.dtyof(n) or ("",))[0] == "dict" \
+                and n.id not in self.env:
+            return n.id, keys
+        return None
+
+    def append_stmt(self, s):
+        """`d[k1]...[kn].append(v)` as a statement -> (name, keys, v) or None"""
+        if not (self.new and isinstance(s, ast.Expr) and isinstance(s.value, ast.Call)
+                and isinstance(s.value.func, ast.Attribute) and s.value.func.attr == "append"
+                and len(s.value.args) == 1 and not s.value.keywords):
+            return None
+        r = self.dict_root(s.value.func.value)
+        return None if r is None else (r[0], r[1], s.value.args[0])
+
+    def ev(self, n, want):
+        """a value stored where the structured type `want` is expected (an optional may be stored as it is)"""
+        if want is not None and want[0] == "opt":
+            if isinstance(n, ast.Name) and self.dty.get(ident(n.id)) == want and ident(n.id) in self.lty:
+                return ident(n.id)
+            if isinstance(n, ast.Constant) and n.value is None:
+                return "none"
+            return "(some %s)" % self.e(n)
+        return self.e(n)
+
+    def block_new(self, s, rest, ind, tail):
+        """statements of the structured subset -> translated block, or None"""
+        pad = "  " * ind
+        if not self.new:
+            return None
+        # x = {} / defaultdict(...) / {k: e for k in D} for a declared dict variable
+        if isinstance(s, ast.Assign) and len(s.targets) == 1 and isinstance(s.targets[0], ast.Name) \
+                and s.targets[0].id in self.vartypes and self.vartypes[s.targets[0].id][0] == "dict":
+            nm, T = ident(s.targets[0].id), self.vartypes[s.targets[0].id]
+            if dict_creation(s.value) is not None:
+                val = "[]"
+            elif isinstance(s.value, ast.DictComp):
+                val = self.e(s.value)
+            else:
+                raise NotImplementedError("value assigned to the dict variable " + nm)
+            self.lty[nm] = dlean(T)
+            self.bind_dty(nm, T)
+            return self.seq(pad, "%slet %s : %s := %s\n" % (pad, nm, dlean(T), val), rest, ind, tail)
+        # d[k] = v
+        if isinstance(s, ast.Assign) and len(s.targets) == 1 and self.dict_root(s.targets[0]) is not None:
+            name, keys = self.dict_root(s.targets[0])
+            if len(keys) != 1:
+                raise NotImplementedError("store into a nested dict")
+            T = self.dtyof(ast.Name(id=name, ctx=ast.Load()))
+            nm = ident(name)
+            v = self.ev(s.value, T[2])
+            text = "%slet %s : %s := (pyDictSet %s %s %s)\n" % (pad, nm, dlean(T), nm, self.e(keys[0]), v)
+            return self.seq(pad, text, rest, ind, tail)
+        # d[k1]...[kn].append(v): every level must be a defaultdict (a missing key is created)
+        ap = self.append_stmt(s)
+        if ap is not None:
+            name, keys, v = ap
+            nm = ident(name)
+            T = self.dtyof(ast.Name(id=name, ctx=ast.Load()))
+            ch = self.chain_of(ast.Name(id=name, ctx=ast.Load()))
+            Ts, cur = [], T
+            for _ in keys:
+                if cur[0] != "dict":
+                    raise NotImplementedError("append: subscript of a value that is not a dict")
+                Ts.append(cur)
+                cur = cur[2]
+            if cur[0] != "list" or any(ch[i] in (None, "?") for i in range(len(keys))):
+                raise NotImplementedError("append to an entry of a plain dict / a value that is not a list")
+            text = "(fun (l_ : %s) => l_ ++ [%s])" % (dlean(cur), self.ev(v, cur[1]))
+            for i in reversed(range(len(keys))):
+                var = nm if i == 0 else "d%d_" % i
+                text = "(pyDictMod %s %s %s %s)" % (var, self.e(keys[i]), ch[i], text)
+                if i > 0:
+                    text = "(fun (d%d_ : %s) => %s)" % (i, dlean(Ts[i]), text)
+            return self.seq(pad, "%slet %s : %s := %s\n" % (pad, nm, dlean(T), text), rest, ind, tail)
+        # x = e for a value of a structured type (list / dict / slice ...): the variable takes that type
+        if isinstance(s, ast.Assign) and len(s.targets) == 1 and isinstance(s.targets[0], ast.Name) \
+                and s.targets[0].id not in self.optslices and s.targets[0].id not in self.vartypes:
+            T = self.dtyof(s.value)
+            if T is not None and T[0] in ("list", "dict", "slice", "tup2", "key"):
+                nm = ident(s.targets[0].id)
+                val = self.e(s.value)
+                self.lty[nm] = dlean(T)
+                self.bind_dty(nm, T)
+                return self.seq(pad, "%slet %s : %s := %s\n" % (pad, nm, dlean(T), val), rest, ind, tail)
+        return None
+
+    def union_test(self, n):
+        """`isinstance(v, Cls)` for a variable of a union type -> (Lean name of v, union type, cls, fields) or None"""
+        if not (self.new and isinstance(n, ast.Call) and isinstance(n.func, ast.Name) and n.func.id == "isinstance"
+                and len(n.args) == 2 and isinstance(n.args[0], ast.Name) and isinstance(n.args[1], ast.Name)):
+            return None
+        T = self.dty.get(ident(n.args[0].id))
+        if T is None or T[0] != "union" or ident(n.args[0].id) not in self.lty:
+            return None
+        if n.args[0].id in self.assigned_anywhere_py - self.loop_targets:
+            raise NotImplementedError("isinstance of a variable that is assigned")
+        for cls, fields in T[2]:
+            if cls == n.args[1].id:
+                return ident(n.args[0].id), T, cls, fields
+        raise NotImplementedError("isinstance(%s, %s): not a class of the declared union" % (n.args[0].id, n.args[1].id))
+
     # ---- types ----------------------------------------------------------------
     def tyof(self, n):
         """Lean type of the value of an expression (only as precise as the loop-state annotations need)"""
+        T_ = self.dtyof(n)
+        if T_ is not None:
+            return dlean(T_)
         if isinstance(n, ast.Name):
             if n.id in self.optslices and ast.dump(n) in self.narrow:
                 return "Int × Int"
@@ -812,7 +1263,8 @@ class Tr(object):
 
     def is_list_index(self, n):
         return (isinstance(n, ast.Subscript) and isinstance(n.value, ast.Name)
-                and self.lty.get(ident(n.value.id), "").startswith("List ") and not isinstance(n.slice, ast.Slice))
+                and self.lty.get(ident(n.value.id), "").startswith("List ") and not isinstance(n.slice, ast.Slice)
+                and not (self.new and (self.dtyof(n.value) or ("",))[0] == "dict"))
 
     def has_raising(self, nodes):
         """does any of the AST nodes contain a construct translated as a raising expression?"""
@@ -820,6 +1272,11 @@ class Tr(object):
             for n in ast.walk(x):
                 if self.is_list_index(n) or self.pair_dict(n) is not None or self.key_dict(n) is not None:
                     return True
+                if self.dict_read_raises(n):
+                    return True
+                if self.new and isinstance(n, ast.Attribute) and n.attr in ("start", "stop") \
+                        and isinstance(n.value, ast.Name) and n.value.id in self.optslices:
+                    return True            # (an over-approximation: AttributeError when the value is None)
                 if isinstance(n, ast.Call) and self.struct_call(n) is not None:
                     return True
                 if isinstance(n, ast.Call) and isinstance(n.func, ast.Name) and n.func.id in self.done \
@@ -952,6 +1409,9 @@ class Tr(object):
         raise NotImplementedError("float operand of type " + self.tyof(n))
 
     def e(self, n):
+        r_ = self.e_new(n)
+        if r_ is not None:
+            return r_
         # ---- Python floats: the operations of the `PyFloatOps` parameter `F` of the generated definition ----
         if isinstance(n, ast.BinOp) and isinstance(n.op, ast.Pow) and isinstance(n.left, ast.Constant) \
                 and isinstance(n.left.value, float) and n.left.value == 2.0 and self.tyof(n.right) == "Int":
@@ -1451,6 +1911,25 @@ class Tr(object):
     # ---- iterables -----------------------------------------------------------
     def iter_expr(self, n):
         """an iterable -> (Lean list expression, element type)"""
+        self.iter_dty = None
+        if self.new:
+            d = None
+            if isinstance(n, ast.Call) and not n.keywords and isinstance(n.func, ast.Name) and n.func.id == "iteritems" \
+                    and len(n.args) == 1 and "iteritems" not in self.lty:
+                d = n.args[0]
+            if isinstance(n, ast.Call) and not n.keywords and isinstance(n.func, ast.Attribute) and n.func.attr == "items" \
+                    and not n.args:
+                d = n.func.value
+            if d is not None:
+                T = self.dtyof(d)
+                if T is None or T[0] != "dict":
+                    raise NotImplementedError("items of " + ast.dump(d)[:60])
+                self.iter_dty = [T[1], T[2]]
+                return self.e(d), prod([dlean(T[1]), dlean(T[2])])
+            T = self.dtyof(n)
+            if T is not None and T[0] == "list":
+                self.iter_dty = [T[1]]
+                return self.e(n), dlean(T[1])
         if isinstance(n, ast.Call) and isinstance(n.func, ast.Name) and n.func.id == "reversed" and len(n.args) == 1:
             l, t = self.iter_expr(n.args[0])
             return "(%s).reverse" % l, t
@@ -1493,6 +1972,8 @@ class Tr(object):
             return [ident(x.id) for x in t.elts]
         if isinstance(t, ast.Tuple):
             return [nm for x in t.elts for nm in self.target_names(x)]
+        if self.dict_root(t) is not None:
+            return [ident(self.dict_root(t)[0])]           # d[k] = v rebinds the dict d
         sa = self.self_attr(t)
         if sa is not None and sa[0] == "state":
             return [sa[1]]
@@ -1593,6 +2074,9 @@ class Tr(object):
         for s in stmts:
             if self.is_event_stmt(s):
                 add("out_")
+            if self.append_stmt(s) is not None:
+                add(ident(self.append_stmt(s)[0]))
+                continue
             if isinstance(s, ast.Assign):
                 for t in s.targets:
                     for nm in self.target_names(t):
@@ -1619,6 +2103,9 @@ class Tr(object):
         for s in stmts:
             if self.is_event_stmt(s):
                 out.add("out_")
+            if self.append_stmt(s) is not None:
+                out.add(ident(self.append_stmt(s)[0]))
+                continue
             if isinstance(s, ast.Assign):
                 for t in s.targets:
                     out.update(self.target_names(t))
@@ -1749,6 +2236,9 @@ class Tr(object):
             return self.block(rest, ind, tail)          # docstring
         if isinstance(s, ast.Pass):
             return self.block(rest, ind, tail)
+        r_ = self.block_new(s, rest, ind, tail)
+        if r_ is not None:
+            return r_
         if isinstance(s, ast.FunctionDef):
             # a nested `def f(x, ...): return e` (no defaults, no decorators): calls are expanded in place
             body = [x for x in s.body if not (isinstance(x, ast.Expr) and isinstance(x.value, ast.Constant))]
@@ -1866,6 +2356,13 @@ class Tr(object):
                 raise NotImplementedError("value assigned to the optional slice " + nm)
             self.narrow.pop(ast.dump(ast.Name(id=s.targets[0].id, ctx=ast.Load())), None)   # no longer known
             self.lty[nm] = "Option (Int × Int)"
+            if self.new and val != "none":
+                # (structured subset) the slice just assigned is known: `x.stop` needs no `is None` test
+                text = "%slet %s_v : Int × Int := %s\n%slet %s : Option (Int × Int) := (some %s_v)\n" % (
+                    pad, nm, val[6:-1], pad, nm, nm)
+                self.lty[nm + "_v"] = "Int × Int"
+                self.narrow[ast.dump(ast.Name(id=s.targets[0].id, ctx=ast.Load()))] = nm + "_v"
+                return self.seq(pad, text, rest, ind, tail)
             text = "%slet %s : Option (Int × Int) := %s\n" % (pad, nm, val)
             return self.seq(pad, text, rest, ind, tail)
         if (isinstance(s, ast.Assign) and len(s.targets) == 1 and isinstance(s.targets[0], ast.Name)
@@ -1978,20 +2475,38 @@ class Tr(object):
             # decided by the declared parameter types: only the live branch exists
             return self.block((s.body if st else s.orelse) + rest, ind, tail)
         pad = "  " * ind
-        nt = self.none_test(s.test)
+        ut = self.union_test(s.test)
+        nt = self.none_test(s.test) if ut is None else None
         saved_l, saved_n = dict(self.lty), dict(self.narrow)
+        saved_u = dict(self.ufields)
 
         def branch(stmts, narrowed, i, t):
             self.lty, self.narrow = dict(saved_l), dict(saved_n)
-            if narrowed:
+            self.ufields = dict(saved_u)
+            if narrowed == "union":
+                # the variable is an instance of the class: its fields are variables of the scope
+                fs = {}
+                for f, T in ut[3]:
+                    ln = "%s_%s" % (ut[0], f)
+                    fs[f] = (ln, T)
+                    self.lty[ln] = dlean(T)
+                    self.bind_dty(ln, T)
+                self.ufields[ut[0]] = (ut[2], fs)
+            elif narrowed:
                 self.narrow[nt[1]] = self.opt_expr(s.test.left)[2]
                 # the narrowed value is a variable of the scope (loop bodies may capture it)
-                self.lty[self.opt_expr(s.test.left)[2]] = "Int × Int" if (
-                    isinstance(s.test.left, ast.Name) and s.test.left.id in self.optslices) else "Int"
-            return self.block(stmts, i, t)
+                self.lty[self.opt_expr(s.test.left)[2]] = self.opt_inner.get(self.opt_expr(s.test.left)[2]) or (
+                    "Int × Int" if (isinstance(s.test.left, ast.Name) and s.test.left.id in self.optslices) else "Int")
+            try:
+                return self.block(stmts, i, t)
+            finally:
+                self.ufields = dict(saved_u)
 
         def head(a, b, pad2):
             """if / match around the two translated branches"""
+            if ut is not None:
+                return "match %s with\n%s| %s.%s %s =>\n%s\n%s| _ =>\n%s" % (
+                    ut[0], pad2, ut[1][1], ut[2], " ".join("%s_%s" % (ut[0], f) for f, _ in ut[3]), a, pad2, b)
             if nt is None:
                 return "if %s then\n%s\n%selse\n%s" % (cond, a, pad2, b)
             name = self.opt_expr(s.test.left)[2]
@@ -1999,9 +2514,9 @@ class Tr(object):
                 return "match %s with\n%s| none =>\n%s\n%s| some %s =>\n%s" % (nt[0], pad2, a, pad2, name, b)
             return "match %s with\n%s| some %s =>\n%s\n%s| none =>\n%s" % (nt[0], pad2, name, a, pad2, b)
 
-        cond = None if nt is not None else self.p(s.test)
+        cond = None if (nt is not None or ut is not None) else self.p(s.test)
         my_pending, self.pending = self.pending, []
-        then_narrow = nt is not None and not nt[2]
+        then_narrow = "union" if ut is not None else (nt is not None and not nt[2])
         else_narrow = nt is not None and nt[2]
         if not force_dup and not self.has_exit([s]) and self.has_raising(s.body + s.orelse) and not self.loops:
             # no return / raise statement, but a raising EXPRESSION inside a branch: the branches compute
@@ -2053,7 +2568,8 @@ class Tr(object):
             if ta != tb:
                 raise NotImplementedError("variable %s has different types in the branches of an if" % v)
             self.lty[v] = ta
-        if nt is None:
+        self.forget_narrow(s)
+        if nt is None and ut is None:
             text = "%slet %s := (if %s then\n%s\n%s  else\n%s)\n" % (pad, tup, cond, a, pad, b)
         else:
             text = "%slet %s := (%s)\n" % (pad, tup, head(a, b, pad + "  "))
@@ -2073,9 +2589,30 @@ class Tr(object):
         has_brk = has_ret or any(isinstance(n, ast.Break) for n in own)
         return has_brk, has_ret
 
+    def forget_narrow(self, s, after=False):
+        """(structured subset) what is known about optionals assigned in the loop / if statement `s` is forgotten"""
+        if not self.new:
+            return
+        names = set(self.assigned(s.body + s.orelse))
+        for k in list(self.narrow):
+            if any(k == ast.dump(ast.Name(id=v, ctx=ast.Load())) for v in names):
+                del self.narrow[k]
+
     def used_outside(self, name, s):
-        """is the Python variable `name` read anywhere in the function outside the loop statement `s`?"""
+        """is the Python variable `name` read anywhere in the function outside the loop statement `s`?
+        (structured subset: reads in the body of ANOTHER `for` loop / comprehension that binds the name itself are
+        reads of that binding)"""
         inside = set(id(n) for n in ast.walk(s))
+        if self.new:
+            for o in ast.walk(self.fn):
+                if o is s:
+                    continue
+                if isinstance(o, ast.For) and any(isinstance(x, ast.Name) and x.id == name for x in ast.walk(o.target)):
+                    inside |= set(id(n) for b in o.body for n in ast.walk(b))
+                if isinstance(o, (ast.DictComp, ast.ListComp, ast.SetComp, ast.GeneratorExp)) and any(
+                        isinstance(x, ast.Name) and x.id == name for g in o.generators for x in ast.walk(g.target)):
+                    inside |= set(id(n) for n in ast.walk(o)) - set(
+                        id(n) for n in ast.walk(o.generators[0].iter))
         return any(isinstance(n, ast.Name) and n.id == name and isinstance(n.ctx, ast.Load) and id(n) not in inside
                    for n in ast.walk(self.fn))
 
@@ -2136,6 +2673,8 @@ class Tr(object):
         pad = "  " * ind
         name = self.new_loop(s)
         lst, ety = self.iter_expr(s.iter)
+        iter_dty = self.iter_dty
+        self.forget_narrow(s)
         my_pending, self.pending = self.pending, []
         if isinstance(s.target, ast.Name):
             tnames = [s.target.id]
@@ -2144,6 +2683,10 @@ class Tr(object):
         else:
             raise NotImplementedError("loop target " + ast.dump(s.target)[:80])
         ecs = components(ety) if len(tnames) > 1 else [ety]
+        if iter_dty is not None and len(iter_dty) == len(tnames):
+            ecs = [dlean(T) for T in iter_dty]
+        elif self.new and len(tnames) == 1 and isinstance(s.iter, ast.Name) and (self.dty.get(ident(s.iter.id)) or ("",))[0] == "list":
+            iter_dty = [self.dty[ident(s.iter.id)][1]]
         if len(ecs) != len(tnames):
             raise NotImplementedError("loop target does not match the element type " + ety)
         # loop variables that live on after the loop (or existed before): part of the state
@@ -2184,9 +2727,16 @@ class Tr(object):
                 if nm != "_":
                     body += "  let %s : %s := %s\n" % (ident(nm), t, proj("it_", i, len(tnames)))
                     self.lty[ident(nm)] = t
+        if iter_dty is not None and len(iter_dty) == len(tnames):
+            for nm, T in zip(tnames, iter_dty):
+                if nm != "_":
+                    self.bind_dty(ident(nm), T)
+        saved_narrow = dict(self.narrow)
         body += self.block(s.body, 1, self.loops[-1].tuple("false"))
         self.loops.pop()
         self.lty = saved
+        if self.new:
+            self.narrow = saved_narrow          # what an iteration learns about optionals is not known after the loop
         caps = self.captured(saved, comps, body)
         self.aux.append("/-- body of the `for` loop at line %d of `%s` -/\ndef %s %s(st_ : %s) (it_ : %s) : %s :=\n%s\n" % (
             s.lineno - self.fn.lineno + 1, self.qual, name, "".join("(%s : %s) " % (v, saved[v]) for v in caps),
@@ -2206,6 +2756,7 @@ class Tr(object):
         `pyWhile cond body fuel init`"""
         pad = "  " * ind
         name = self.new_loop(s)
+        self.forget_narrow(s)
         has_brk, has_ret, comps, tys = self.state_setup(s)
         if not comps:
             raise NotImplementedError("loop without effect")
@@ -2243,9 +2794,12 @@ class Tr(object):
             self.cond_depth -= 1
             head = ""
         cond = self.unpack("  ", "st_", comps, tys, skip=("ret_",)) + "  " + (("(!brk_ && %s)" % c) if has_brk else c)
+        saved_narrow = dict(self.narrow)
         body = self.unpack("  ", "st_", comps, tys, skip=("ret_", "brk_")) + head + self.block(s.body, 1, self.loops[-1].tuple("false"))
         self.loops.pop()
         self.lty = saved
+        if self.new:
+            self.narrow = saved_narrow
         ccaps = self.captured(saved, comps, cond)
         caps = self.captured(saved, comps, body)
         self.aux.append("/-- condition of the `while` loop %s -/\ndef %s_cond %s(st_ : %s) : Bool :=\n%s\n" % (
@@ -2373,6 +2927,58 @@ def find_def(tree, rel, qual):
     return fn[0], cls
 
 
+def check_dict_uses(fn, tr):
+    """(structured subset) every declared dict variable is created exactly once (`{}`, a dict comprehension,
+    `defaultdict(...)`): that statement fixes the defaults of missing keys (`tr.chain`).  Reading `d[k]` on a
+    defaultdict also INSERTS the default; the translation keeps only the value, which is sound when the insertion
+    cannot be observed: a defaultdict that is read by subscript must not be iterated, measured, tested with `in`,
+    copied, returned or passed on, and `.get(k, x)` on it must give a default equal to the factory's (checked where
+    `.get` is translated)."""
+    for name, T in tr.vartypes.items():
+        if T[0] != "dict":
+            continue
+        creations = [n for n in ast.walk(fn) if isinstance(n, ast.Assign) and any(
+            isinstance(t, ast.Name) and t.id == name for t in n.targets)]
+        if len(creations) != 1 or len(creations[0].targets) != 1:
+            raise NotImplementedError("dict variable %s must be assigned exactly once" % name)
+        v = creations[0].value
+        ch = dict_creation(v)
+        if ch is None:
+            if not isinstance(v, ast.DictComp):
+                raise NotImplementedError("creation of the dict variable " + name)
+            ch = [None]
+        tr.chain[name] = ch + [None] * 4
+        if ch[0] is None:
+            continue
+        # a defaultdict: classify every use of the name
+        parents = {}
+        for n in ast.walk(fn):
+            for c in ast.iter_child_nodes(n):
+                parents[id(c)] = n
+        pure_reads, other = 0, 0
+        for n in ast.walk(fn):
+            if not (isinstance(n, ast.Name) and n.id == name and isinstance(n.ctx, ast.Load)):
+                continue
+            par = parents.get(id(n))
+            if isinstance(par, ast.Subscript) and par.value is n:
+                # d[k]...: a store / append target creates the key for real (modelled); anything else is a read
+                top = par
+                while isinstance(parents.get(id(top)), ast.Subscript) and parents[id(top)].value is top:
+                    top = parents[id(top)]
+                pp = parents.get(id(top))
+                is_store = isinstance(top.ctx, ast.Store)
+                is_append = (isinstance(pp, ast.Attribute) and pp.attr == "append" and isinstance(parents.get(id(pp)), ast.Call)
+                             and parents[id(pp)].func is pp and isinstance(parents.get(id(parents[id(pp)])), ast.Expr))
+                if not (is_store or is_append):
+                    pure_reads += 1
+            elif isinstance(par, ast.Attribute) and par.attr == "get" and isinstance(parents.get(id(par)), ast.Call):
+                pass                               # .get never inserts
+            else:
+                other += 1                         # iterated, passed on, returned, ...
+        if pure_reads and other:
+            raise NotImplementedError("defaultdict %s is read by subscript (which inserts) and also observed as a whole" % name)
+
+
 def translate(repo, rel, fname, ptypes, ret, done=None):
     if ret == "exc_int":
         ret = "exc:int"
@@ -2416,6 +3022,10 @@ def translate(repo, rel, fname, ptypes, ret, done=None):
     # declared local variables (`var:<name>=optslice`: None or slice(a, b) of ints)
     var_types = dict(t[4:].split("=", 1) for t in ptypes if t.startswith("var:"))
     ptypes = [t for t in ptypes if not t.startswith("var:")]
+    # (structured subset) declared local variables of dict types
+    struct_vars = dict((k, parse_ty(v)) for k, v in var_types.items() if "[" in v)
+    var_types = dict((k, v) for k, v in var_types.items() if "[" not in v)
+    new_style = bool(struct_vars) or any("[" in t or t.startswith("env:") for t in ptypes)
     if any(v != "optslice" for v in var_types.values()):
         raise NotImplementedError("%s: variable types %r" % (fname, var_types))
     # a local object (`local:<name>=obj:...`): its attributes - as the constructor leaves them - are parameters
@@ -2424,8 +3034,8 @@ def translate(repo, rel, fname, ptypes, ret, done=None):
     if len(local_obj) > 1:
         raise NotImplementedError("%s: more than one local object" % fname)
     # closure variables of a nested function (`name=type` entries after the parameters): extra parameters
-    closure = [t.split("=", 1) for t in ptypes if "=" in t]
-    ptypes = [t for t in ptypes if "=" not in t]
+    closure = [t.split("=", 1) for t in ptypes if "=" in t and not t.startswith("env:")]
+    ptypes = [t for t in ptypes if "=" not in t or t.startswith("env:")]
     if closure and fname.count(".") < 2 and not nested_def:
         raise NotImplementedError("%s: closure variables of a function that is not nested" % fname)
     params = params + [c[0] for c in closure]
@@ -2444,6 +3054,7 @@ def translate(repo, rel, fname, ptypes, ret, done=None):
         raise NotImplementedError("%s: parameters %r" % (fname, params))
     local_enums = int_enums(tree)
     attrs, aty, types, sig, recs, lty, skipped, objname = [], [], {}, [], {}, {}, [], "self"
+    envs, struct_params = {}, {}
     dict_params = []
     for p, t in zip(params, ptypes):
         if t.startswith("obj:"):
@@ -2465,6 +3076,31 @@ def translate(repo, rel, fname, ptypes, ret, done=None):
                 lty[p + "_" + x] = ty_
         elif t == "ignored":
             types[p] = "ignored"       # a parameter the body must not read (e.g. a parent object that is only stored)
+        elif t.startswith("env:"):
+            # an object of the environment: declared attributes are parameters, `obj[k]` is a function parameter
+            # (what the object answers - a value or an exception - is an input of the generated definition)
+            types[p] = "env"
+            spec = {"attrs": {}}
+            for item in split_top(t[4:], ";"):
+                a, _, ty_ = item.partition("=")
+                if a == "getitem":
+                    kt, _, vt = ty_.partition("->")
+                    spec["getitem"] = (parse_ty(kt), parse_ty(vt))
+                    sig.append("(%s_getitem : %s → Except String %s)" % (ident(p), paren(dlean(spec["getitem"][0])),
+                                                                        paren(dlean(spec["getitem"][1]))))
+                    lty["%s_getitem" % ident(p)] = "%s → Except String %s" % (
+                        paren(dlean(spec["getitem"][0])), paren(dlean(spec["getitem"][1])))
+                else:
+                    spec["attrs"][a] = parse_ty(ty_)
+                    sig.append("(%s_%s : %s)" % (ident(p), a, dlean(spec["attrs"][a])))
+                    lty["%s_%s" % (ident(p), a)] = dlean(spec["attrs"][a])
+            envs[p] = spec
+        elif "[" in t:
+            T = parse_ty(t, "%s_%s_elem" % (lean_name(fname), p))
+            types[p] = "struct"
+            sig.append("(%s : %s)" % (ident(p), dlean(T)))
+            lty[ident(p)] = dlean(T)
+            struct_params[ident(p)] = T
         else:
             if p == "self" and not (t == "int" and cls in local_enums) and not t.startswith("rec:"):
                 raise NotImplementedError("%s: self : %s outside an IntEnum class" % (fname, t))
@@ -2488,6 +3124,30 @@ def translate(repo, rel, fname, ptypes, ret, done=None):
     tr.dicts = set(dict_params)
     tr.local_obj = bool(local_obj)
     tr.optslices = set(var_types)
+    tr.new = new_style
+    tr.env = envs
+    tr.loop_targets = set(x.id for n in ast.walk(fn) if isinstance(n, ast.For) for x in ast.walk(n.target)
+                          if isinstance(x, ast.Name))
+    if new_style:
+        tr.vartypes = dict(struct_vars)
+        for v in var_types:
+            tr.vartypes[v] = ("opt", ("slice",))
+        for nm, T in struct_params.items():
+            tr.dty[nm] = T
+        for v in tr.optslices:
+            tr.dty[ident(v)] = ("opt", ("slice",))
+
+        def unions(T):
+            if T[0] == "union":
+                yield T
+            for x in T[1:]:
+                if isinstance(x, tuple) and x and isinstance(x[0], str) and T[0] != "union":
+                    for u in unions(x):
+                        yield u
+        for T in struct_params.values():
+            for u in unions(T):
+                tr.aux.append(union_decl(u))
+        check_dict_uses(fn, tr)
     tr.mro = class_mro(tree, cls) if cls else [None]
     tr.consts = dict((k, v) for k, v in module_int_consts(tree).items())
     tr.lty = lty
